@@ -265,6 +265,125 @@ def check_idempotence(mm, rep):
     rep.oblige(not bad, "R16.2", "idempotent", F.loc(mm.fn["span"]), f"merge has no early return for equal operands and the diagonal arm(s) for {bad} can only conflict: merge(x, x) is not x, so a type that is met twice conflicts with itself depending on the order of the fold")
 
 
+def check_span_shapes(mm, rep):
+    """R16.3 (shape closure): the arm that lets a packed encoding meet dynamic bytes / a dynamic array accepts a finite family
+    of span shapes per span count. Associativity needs that family to be closed: a k-span encoding is accepted exactly when each
+    of its spans is accepted on its own ((p + q) + bytes against p + (q + bytes), p and q being one-span encodings). The
+    conditions are read as boolean formulas over `span[i].offset == c` / `span[i].size == c` and evaluated for every tuple over
+    the constants they mention."""
+    arm = next((a for a in mm.arms if any(l == {"Packed"} and "Bytes" in r for l, r in a.alts)), None)
+    if not rep.anchor("R16.3", arm is not None, "the (Packed, Bytes | DynamicArray) arm of merge"):
+        return
+    body = F.strip(arm.node["body"])
+    t = arm.term
+    if not rep.anchor("R16.3", body.get("k") == "Match" and isinstance(t, tuple) and t[0] == "match" and len(t[2]) == len(body["arms"]) and "len" in str(t[1]), "a match on the number of spans in that arm"):
+        return
+
+    def is_bytes(x):
+        return isinstance(x, tuple) and x[0] == "call" and "Merge" in str(x[1]) and x[2] and x[2][0][0] == "path" and str(x[2][0][1]).endswith("::Bytes")
+
+    def is_conflict(x):
+        return isinstance(x, tuple) and x[0] == "call" and "Merge" in str(x[1]) and x[2] and x[2][0][0] == "call" and "conflict" in str(x[2][0][1])
+
+    # which sorted-by-offset sequences exist in the arm (closure body = the span's offset field)
+    by_offset = False
+    for n, _ in F.walk(arm.node["body"]):
+        if n.get("k") == "MethodCall" and n["method"] in ("sorted_by_key", "sort_by_key", "sorted_unstable_by_key", "sort_unstable_by_key"):
+            clo = [F.strip(a) for a in n["args"] if F.strip(a).get("k") == "Closure"]
+            if clo:
+                cb = F.strip(clo[0]["body"])
+                while cb.get("k") == "Block" and not cb["block"]["stmts"] and cb["block"].get("expr"):
+                    cb = F.strip(cb["block"]["expr"])
+                if cb.get("k") == "Field" and cb.get("field") == "offset":
+                    by_offset = True
+
+    class NotAFormula(Exception):
+        pass
+
+    consts = {"offset": set(), "size": set()}
+
+    def atoms(c):
+        if c[0] == "bin" and c[1] in ("And", "Or"):
+            atoms(c[2]); atoms(c[3]); return
+        if c[0] == "un" and c[1] == "Not":
+            atoms(c[2]); return
+        if c[0] == "bin" and c[1] in ("Eq", "Ne") and c[2][0] == "field" and c[2][2] in consts and c[3][0] == "lit" and c[2][1][0] == "index" and c[2][1][2][0] == "lit":
+            consts[c[2][2]].add(int(c[3][1])); return
+        raise NotAFormula(T.short(c)[:60])
+
+    def ev(c, spans, sorted_seq):
+        if c[0] == "bin" and c[1] == "And":
+            return ev(c[2], spans, sorted_seq) and ev(c[3], spans, sorted_seq)
+        if c[0] == "bin" and c[1] == "Or":
+            return ev(c[2], spans, sorted_seq) or ev(c[3], spans, sorted_seq)
+        if c[0] == "un":
+            return not ev(c[2], spans, sorted_seq)
+        seq = sorted_seq if "sort" in str(c[2][1][1]) else spans
+        i = int(c[2][1][2][1])
+        v = seq[i][0 if c[2][2] == "offset" else 1]
+        return (v == int(c[3][1])) == (c[1] == "Eq")
+
+    conds = {}
+    wild = None
+    try:
+        for harm, (_lbl, tb) in zip(body["arms"], t[2]):
+            pat = harm["pat"]
+            if pat.get("p") == "Lit":
+                k = int(pat["value"]["v"])
+            elif pat.get("p") == "Wild" or pat.get("p") == "Bind":
+                k = None
+            else:
+                raise NotAFormula("pattern " + str(pat.get("p")))
+            if is_bytes(tb):
+                c = True
+            elif is_conflict(tb):
+                c = False
+            elif isinstance(tb, tuple) and tb[0] == "if" and is_bytes(tb[2]) and is_conflict(tb[3]):
+                atoms(tb[1])
+                c = tb[1]
+            elif isinstance(tb, tuple) and tb[0] == "if" and is_conflict(tb[2]) and is_bytes(tb[3]):
+                atoms(tb[1])
+                c = ("un", "Not", tb[1])
+            else:
+                raise NotAFormula(f"the arm for {k} spans is neither bytes, a conflict, nor a choice between them")
+            if k is None:
+                wild = c
+            else:
+                conds[k] = c
+    except NotAFormula as e:
+        rep.violation("R16.3", "shape-closure:not-a-table", arm.where(), f"the span-shape conditions of the (Packed, Bytes) arm are no longer a finite table ({e}); their closure cannot be read off the source")
+        return
+    if not rep.anchor("R16.3", 1 in conds and wild is not None, "the one-span case and a catch-all in the span-count match"):
+        return
+    universe = sorted((o, s) for o in consts["offset"] for s in consts["size"])
+
+    def accepted(k, tup):
+        c = conds.get(k, wild)
+        if c is True or c is False:
+            return {c}
+        out = set()
+        srt = tuple(sorted(tup))
+        for p_ in itertools.permutations(tup):
+            out.add(ev(c, p_, srt if by_offset else p_))
+        return out
+
+    singles = {u for u in universe if accepted(1, (u,)) == {True}}
+    rep.extra["packed_bytes_shapes"] = sorted(singles)
+    n = 0
+    maxk = max(list(conds) + [len(singles)]) + 1
+    for k in range(2, maxk + 1):
+        for tup in itertools.combinations(universe, k):
+            if any(a[0] + a[1] > b[0] for a, b in zip(tup, tup[1:])):
+                continue  # overlapping spans never form one encoding
+            n += 1
+            acc = accepted(k, tup)
+            want = all(u in singles for u in tup)
+            ok = acc == {want}
+            why = "depends on the order in which the spans are listed" if len(acc) > 1 else (f"is {'accepted' if True in acc else 'rejected'} as a whole although each span on its own is {'accepted' if want else 'not all accepted'}")
+            rep.oblige(ok, "R16.3", f"shape-closure:{k}:{'+'.join(f'{o}/{s}' for o, s in tup)}", arm.where(), f"a packed encoding with the spans {list(tup)} (offset, size) meeting bytes / a dynamic array {why}: combining the one-span pieces with the bytes evidence one at a time gives a different outcome than combining them with each other first, so the result depends on the grouping", sample={"rule": "R16.3", "spans": list(tup), "accepted": want} if n <= 3 else None)
+    rep.floor("R16.3", n, 4, "multi-span shapes of the packed-meets-bytes arm evaluated against the one-span shapes")
+
+
 def check_absorption(mm, rep):
     """R16.3"""
     L, R = mm.left, mm.right
@@ -417,6 +536,7 @@ def check(fx, rep, tier):
     if table is not None:
         check_usage_laws(fx, rep, "R16.2", usages, table, want_upper_bound=False)
     check_absorption(mm, rep)
+    check_span_shapes(mm, rep)
     check_combine(fx, rep)
     # the outcome may not depend on which type variables stand for the parts: no ordering by identity inside merge and its helpers
     from .c02 import check_identity_order
